@@ -26,7 +26,7 @@ for p in props:
         'level_claimed': {
             'category': meta['level'],
             'text': MM.LEVEL_TEXT.get(pid) or (
-                'Decides the clauses ' + '; '.join(['D0 names resolve in the anchored modules', 'DM run-time module state is a sound memo / decorators are transparent on the reachable functions'] + list(meta.get('decided', []))) +
+                'Decides the clauses ' + '; '.join(['D0 names resolve in the anchored modules', 'DM run-time module state is a sound memo / decorators are transparent on the reachable functions', 'DP four syntactic Python pitfalls absent from the reachable functions'] + list(meta.get('decided', []))) +
                 ' on every path/instance of the current tree. A pass means every decided clause holds; it never '
                 'means the whole behavioural statement was established. Not decided: ' +
                 '; '.join(meta.get('undecided', []))),
@@ -35,7 +35,7 @@ for p in props:
         'level_note': 'Trusted base: ' + '; '.join(meta.get('trusted_base', [])) +
                       '. Assumptions: ' + '; '.join(meta.get('assumptions', [])),
         'technique': MM.TECHNIQUE.get(pid, 'static analysis: AST abstract interpretation (term domain) + rule checks') +
-        '; common clauses: symtable scope analysis (D0), def-use / call-graph lint of run-time module state and decorators (DM)',
+        '; common clauses: symtable scope analysis (D0), def-use / call-graph lint of run-time module state and decorators (DM), syntactic pitfall lint over the reachable functions (DP)',
     })
 m = {
     'version': 1,
